@@ -352,6 +352,46 @@ def run(rep, tier):
                    "the digest that becomes a CAS token must be seeded with a per-commit fresh value on every path before anything else: %s" % why, F.where())
     if nfin < 5:
         rep.fault("R07.3: only %d finalize sites found (expected the 5 token digests)" % nfin)
+    # one fresh commit timestamp per commit: every function that commits through update_meta_with stamps the document it
+    # publishes with new_commit_timestamp_ms() inside the commit callback, on every path to its Ok return (a copy that keeps the
+    # source's committed_at_ms publishes a target whose last_modified lies in the past: date preconditions answer for the wrong commit)
+    nts = 0
+    for f in prog.fns.values():
+        if not ostore.in_scope(f) or not f.calls_named(r"SidecarStore::<T, M>::update_meta_with$"):
+            continue
+        nts += 1
+        ok = False
+        site = f.file + ":%d" % f.line
+        for b_ in prog.closures_of(f):
+            for c in b_.calls_named(r"anda_object_store::(sidecar::)?new_commit_timestamp_ms$"):
+                der = b_.derived_locals([c.dest.l])
+                stamped = False
+                for blk in b_.live_blocks():
+                    for st in b_.stmts(blk):
+                        if st[0] != "A":
+                            continue
+                        rv = st[2]
+                        if rv["k"] == "agg" and rv["a"].get("def") in META_ADTS:
+                            for name, o in zip(rv["a"]["fields"], rv["ops"]):
+                                p_ = core.op_place(o)
+                                if name == "committed_at_ms" and p_ is not None and p_.l in der:
+                                    stamped = True
+                        elif st[1].get("p"):
+                            last = [e for e in st[1]["p"] if isinstance(e, dict) and "n" in e]
+                            if last and last[-1]["n"] == "committed_at_ms" and any(core.op_place(o) is not None and core.op_place(o).l in der
+                                                                                    for o in core._rvalue_operands(rv)):
+                                stamped = True
+                okret = [blk for blk in b_.live_blocks() for st in b_.stmts(blk) if st[0] == "A" and st[1]["l"] == 0 and not st[1].get("p")
+                         and st[2]["k"] == "agg" and st[2]["a"].get("def") == "core::result::Result" and st[2]["a"].get("v") == "Ok"]
+                if stamped and okret and b_.must_pass([c.block], okret):
+                    ok = True
+                site = c.where()
+        rep.saw(f, 1)
+        rep.ob("R07.3", "fresh-commit-timestamp|%s" % prog.outer_fn(f).path.replace("anda_object_store::", ""), ok,
+               "the document committed here is not stamped with new_commit_timestamp_ms() inside its commit callback on every path "
+               "(it would carry another commit's timestamp)", site)
+    if nts < 6:
+        rep.fault("R07.3: only %d committing functions found" % nts)
     # derive_copy_e_tag mixes the generation in
     d = prog.fn("anda_object_store::derive_copy_e_tag")
     der = d.derived_locals([1], mut_args=True)
@@ -405,6 +445,27 @@ def run(rep, tier):
             ok = ok and vn
         rep.ob("R07.4", "get-from-commit-point|%s::get_opts" % w, ok,
                "get_opts overwrites size, e_tag, last_modified from the commit point and clears the version (assigned: %s)" % sorted(assigned), g.file + ":%d" % g.line)
+    # ------------------------------------------------------------------ R07.6 read preconditions are evaluated for the commit that is returned
+    rep.rule("R07.6", "get_opts: the options handed to check_get_preconditions are a fresh copy of the caller's in every iteration of the stale-pointer retry "
+                      "(the check consumes the conditions it evaluates; reusing the consumed value would skip them for the re-resolved commit)", floor=2)
+    for w in ("MetaStore", "EncryptedStore"):
+        f = ostore.wrapper_fn(prog, w, "get_opts")
+        rep.saw(f, len(f.events))
+        cgs = f.calls_named(r"anda_object_store::check_get_preconditions$")
+        rfs = f.calls_named(r"SidecarStore::<T, M>::refresh_meta$")
+        ok = bool(cgs) and bool(rfs)
+        why = "anchor: check_get_preconditions / refresh_meta not found"
+        for cg in cgs:
+            clones = [o[1] for o in f.slice_back_op(cg.args[1], through=lambda ev: False)
+                      if o[0] == "call" and re.search(r"clone::Clone>?::clone$", o[1].name or "") and "GetOptions" in ((o[1].finfo or {}).get("self") or "")]
+            if not clones:
+                ok, why = False, "the &mut options passed to the check is not a clone made for this evaluation (it is the caller's value, consumed by an earlier iteration)"
+                continue
+            for rf in rfs:
+                if not f.must_pass({c.block for c in clones}, [cg.block], start=rf.block):
+                    ok, why = False, "after refresh_meta the loop can reach the check again without re-cloning the caller's options"
+        rep.ob("R07.6", "preconditions-per-iteration|%s::get_opts" % w, ok, why, cgs[0].where() if cgs else f.file + ":%d" % f.line)
+
     # ------------------------------------------------------------------ R07.5 a backend failure is not an answer
     rep.rule("R07.5", "conformance of error reporting: no wrapper path turns a backend failure into a normal answer (Err edge reaches Ok only via an arm "
                       "naming a specific object_store::Error variant)", floor=12)
